@@ -23,6 +23,21 @@ def tokty(name):
     return 'T_' + name.replace('-', '_')
 
 
+def _string_collection(node, tokenize2):
+    """a collection of token names written as a tuple / list / set literal, or a class attribute of Tokenizer
+    (self.X / Tokenizer.X) holding a tuple / list / set / frozenset of strings -> sorted list, else None"""
+    vals = None
+    if isinstance(node, (ast.Tuple, ast.List, ast.Set)) and all(isinstance(e, ast.Constant) and isinstance(e.value, str) for e in node.elts):
+        vals = [e.value for e in node.elts]
+    elif isinstance(node, ast.Attribute) and isinstance(node.value, ast.Name) and node.value.id in ('self', 'Tokenizer', 'cls'):
+        v = getattr(tokenize2.Tokenizer, node.attr, None)
+        if isinstance(v, (tuple, list, set, frozenset)) and all(isinstance(x, str) for x in v):
+            vals = list(v)
+    if vals is None:
+        return None
+    return sorted(set(vals), key=lambda n: (TOKTY.index(n) if n in TOKTY else 999, n))
+
+
 def _tokenize_literals(tokenize2):
     """pull the literal sets out of Tokenizer.tokenize's AST (fail-closed)"""
     src = textwrap.dedent(inspect.getsource(tokenize2.Tokenizer.tokenize))
@@ -34,8 +49,10 @@ def _tokenize_literals(tokenize2):
             comp = node.comparators[0]
             if isinstance(node.left, ast.Name) and node.left.id == 'c' and isinstance(comp, ast.Constant):
                 fast = comp.value
-            if isinstance(node.left, ast.Name) and node.left.id == 'name' and isinstance(comp, ast.Tuple):
-                tuples.append([e.value for e in comp.elts])
+            if isinstance(node.left, ast.Name) and node.left.id == 'name':
+                names = _string_collection(comp, tokenize2)
+                if names is not None:
+                    tuples.append(names)
     if fast is None or len(tuples) != 2:
         raise R.Untranslatable('Tokenizer.tokenize: literal sets not found (%r, %r)' % (fast, tuples))
     decoding = max(tuples, key=len)
